@@ -275,6 +275,10 @@ func (env *SpecEnv) index(x specVal, i *Term) specVal {
 	}
 	switch u := x.typ.Underlying().(type) {
 	case *types.Slice:
+		if arr := pureSliceArr(x.t); arr != nil {
+			// a slice returned by a pure function (spec level): its elements do not live in the heap
+			return specVal{Select(arr, i), u.Elem()}
+		}
 		name, s := env.fx.elemHeapName(u.Elem())
 		h := env.fx.heapGet(env.st, name, s)
 		return specVal{env.fx.elemAt(h, x.t, i), u.Elem()}
@@ -767,6 +771,12 @@ func (env *SpecEnv) call(e *SExpr) specVal {
 			args = append(args, env.expr(a))
 		}
 		return env.callSpec(sf, args)
+	}
+	if v, ok := env.specMethodCall(e); ok {
+		return v
+	}
+	if v, ok := env.specPureFuncCall(e); ok {
+		return v
 	}
 	env.fail("unknown function %s in spec", e.Name)
 	return specVal{}
